@@ -31,6 +31,7 @@ import (
 	"github.com/bluenviron/mediamtx/internal/externalcmd"
 	fwrtmp "github.com/bluenviron/mediamtx/internal/forward/rtmp"
 	"github.com/bluenviron/mediamtx/internal/logger"
+	"github.com/bluenviron/mediamtx/internal/staticsources"
 	ssrtp "github.com/bluenviron/mediamtx/internal/staticsources/rtp"
 	"github.com/bluenviron/mediamtx/internal/stream"
 	"github.com/bluenviron/mediamtx/internal/unit"
@@ -494,6 +495,36 @@ func (w *w1World) Gen(rng *rand.Rand, property, tier string) (any, simrt.Sched) 
 		}
 		b.Actors = append(b.Actors, cl)
 		b.Actors = append(b.Actors, w1Actor{Kind: "reload", StartMs: t, Ops: []w1Op{{Op: "reload", N: 1}}})
+	} else if focus == "C15" && !always && rng.Intn(4) == 0 {
+		// a pulled source that is started on demand and stays up until the final checks (long
+		// close-after); changes that are applied in place reach its path while the source is
+		// stopped (before the first reader) or running (two changes in a row)
+		src := w1Path{Name: "s1", Source: "sim", SrcTag: "s1", OnDemand: true, StartTimeoutMs: 10000, CloseAfterMs: 60000, Forward: []string{"d1"}}
+		mk := func(fw ...string) w1Version {
+			p := src
+			p.Forward = fw
+			return w1Version{Users: b.Versions[0].Users, Paths: []w1Path{p, {Name: "all_others", Source: "publisher", StartTimeoutMs: 1000, CloseAfterMs: 1000}}}
+		}
+		b.Versions = []w1Version{mk("d1"), mk("d1", "d2"), mk("d3")}
+		rd := w1Actor{Kind: "rd", Path: "s1", Shape: "1phase", User: "admin", Pass: "adminpw", IP: "127.0.0.1", Formats: []int{0, 1}}
+		re := w1Actor{Kind: "reload"}
+		if rng.Intn(2) == 0 {
+			re.StartMs = w1Pick[int64](rng, 0, 500)
+			re.Ops = []w1Op{{Op: "reload", N: 1}}
+			if rng.Intn(2) == 0 {
+				re.Ops = append(re.Ops, w1Op{Op: "reload", N: 2, Ms: w1Pick[int64](rng, 0, 100)})
+			}
+			rd.StartMs = 2000
+			rd.Ops = []w1Op{{Op: "session", Ms: 5000}}
+		} else {
+			rd.Ops = []w1Op{{Op: "session", Ms: 30000}}
+			re.StartMs = w1Pick[int64](rng, 3000, 12000, 25000)
+			re.Ops = []w1Op{{Op: "reload", N: 1}, {Op: "reload", N: 2, Ms: w1Pick[int64](rng, 0, 0, 1, 100)}}
+			for k, n := 0, rng.Intn(4); k < n; k++ {
+				re.Ops = append(re.Ops, w1Op{Op: "reload", N: int64(1 + k%2), Ms: w1Pick[int64](rng, 0, 0, 0, 1)})
+			}
+		}
+		b.Actors = append(b.Actors, rd, re)
 	} else if len(b.Versions) > 1 {
 		a := w1Actor{Kind: "reload", StartMs: w1Pick[int64](rng, 0, 50, 500, 3000)}
 		nre := 1 + rng.Intn(4)
@@ -526,7 +557,7 @@ func (w *w1World) Gen(rng *rand.Rand, property, tier string) (any, simrt.Sched) 
 	case "C18", "C19", "C20", "C03":
 		sched.Focus = []string{"core/path.go", "core/path_manager.go"}
 	case "C15":
-		sched.Focus = []string{"core/path_manager.go", "core/path.go"}
+		sched.Focus = []string{"core/path_manager.go", "core/path.go", "staticsources/handler.go"}
 	case "C39":
 		sched.Focus = []string{"forward/"}
 	}
@@ -568,6 +599,17 @@ type w1Harness struct {
 	procSeq   atomic.Int64
 	fwdSeq    atomic.Int64
 	lastConfs map[string]*conf.Path
+	srcMu     sync.Mutex
+	srcInsts  []*w1SrcInst
+}
+
+// w1SrcInst is one run of a simulated pulled source and the configuration it runs with:
+// the one it was started with, then every one delivered to it.
+type w1SrcInst struct {
+	src  *ssrtp.Source
+	inst int64
+	conf *conf.Path
+	live bool
 }
 
 func (h *w1Harness) Log(level logger.Level, format string, args ...any) {
@@ -1188,11 +1230,28 @@ func (h *w1Harness) srcRun(s *ssrtp.Source, params defs.StaticSourceRunParams) e
 	inst := h.nextSrc.Add(1)
 	simrt.Rec("src.run", tag, "", inst, 0, 0)
 	defer simrt.Rec("src.exit", tag, "", inst, 0, 0)
+	me := &w1SrcInst{src: s, inst: inst, conf: params.Conf, live: true}
+	h.srcMu.Lock()
+	h.srcInsts = append(h.srcInsts, me)
+	h.srcMu.Unlock()
+	defer func() {
+		h.srcMu.Lock()
+		me.live = false
+		h.srcMu.Unlock()
+	}()
 	d := []time.Duration{0, 10 * time.Millisecond, 300 * time.Millisecond, 2 * time.Second, 20 * time.Second}[simrt.Choose("src.delay", 5)]
-	select {
-	case <-time.After(d):
-	case <-params.Context.Done():
-		return fmt.Errorf("terminated")
+	for dl := time.After(d); dl != nil; {
+		select {
+		case <-dl:
+			dl = nil
+		case nc := <-params.ReloadConf:
+			simrt.Rec("src.reload", tag, "", inst, 0, 0)
+			h.srcMu.Lock()
+			me.conf = nc
+			h.srcMu.Unlock()
+		case <-params.Context.Done():
+			return fmt.Errorf("terminated")
+		}
 	}
 	if simrt.Flip("src.dialfail", h.body.SrcDialP) {
 		simrt.Count("fault.src.dialfail", 1)
@@ -1220,8 +1279,11 @@ func (h *w1Harness) srcRun(s *ssrtp.Source, params defs.StaticSourceRunParams) e
 		select {
 		case <-params.Context.Done():
 			return fmt.Errorf("terminated")
-		case <-params.ReloadConf:
+		case nc := <-params.ReloadConf:
 			simrt.Rec("src.reload", tag, "", inst, 0, 0)
+			h.srcMu.Lock()
+			me.conf = nc
+			h.srcMu.Unlock()
 			continue
 		case <-tick:
 		}
@@ -1502,6 +1564,24 @@ func (h *w1Harness) finalChecks() {
 			simrt.Violate("C15", "stale-matches", "live path %q has capture groups %q but resolution selects %q (conf %q)",
 				n, pa.matches, wantMatches, want.Name)
 		}
+		// a pulled source that is running for this path runs with the configuration of the path:
+		// the one it was started with, or the last one delivered to it since
+		h.srcMu.Lock()
+		for _, si := range h.srcInsts {
+			hd, ok := si.src.Parent.(*staticsources.Handler)
+			if !si.live || !ok || hd.Parent != pa {
+				continue
+			}
+			if si.conf == nil || !si.conf.Equal(want) {
+				nm, fw := "<nil>", conf.Forward(nil)
+				if si.conf != nil {
+					nm, fw = si.conf.Name, si.conf.Forward
+				}
+				simrt.Violate("C15", "source-conf-stale", "live path %q: its source (run %d) runs with configuration %q (forward=%v) but resolution selects %q (forward=%v)",
+					n, si.inst, nm, fw, want.Name, want.Forward)
+			}
+		}
+		h.srcMu.Unlock()
 		// forward list of the path vs configuration
 		l := pa.APIForwardDestList()
 		if len(l.Items) != len(want.Forward) {
